@@ -466,6 +466,32 @@ def run(ctx, repo, tier):
         else:
             ctx.inconclusive("ORD", "C20.legend.order", "accumulation of the legend names not recognised", gc.where,
                              witness=src(app[0])[:80] if app else "no append")
+    # one pass over the file: a second `for line in f` after a first loop that ended with `break` never sees the line that ended the
+    # first loop (the iterator has already consumed it)
+    seq_loops = {}
+    for n in ast.walk(gc.node):
+        if isinstance(n, ast.For) and isinstance(n.iter, ast.Name):
+            seq_loops.setdefault(n.iter.id, []).append(n)
+    ctx.instance("ORD")
+    split = [(nm, ls_) for nm, ls_ in seq_loops.items() if len(ls_) >= 2]
+    if split:
+        nm, ls_ = split[0]
+        first = sorted(ls_, key=lambda x: x.lineno)[0]
+        brk = [b for b in ast.walk(first) if isinstance(b, ast.Break)]
+        lone = []
+        for b in brk:
+            par = getattr(b, "_parent", None)
+            if isinstance(par, ast.If) and len(par.body) == 1:
+                lone.append(par)
+        if lone:
+            ctx.violate("ORD", "C20.legend.onepass", f"the header is scanned by consecutive loops over the same iterator `{nm}`: the line on which "
+                        "the first loop breaks has been consumed and is never examined by the next loop - if it is a legend line (a file whose "
+                        "first '@' line is `@ s0 legend ...`) its name is lost and every later name moves one column", gc.where,
+                        "if " + src(lone[0].test)[:80] + ": break", witness="for line in f: if ...: break  /  for line in f: ...")
+        else:
+            ctx.inconclusive("ORD", "C20.legend.onepass", "the header is scanned by several loops over one iterator", gc.where)
+    else:
+        ctx.ok("ORD", "C20.legend.onepass", "the header is scanned in one pass over the file", gc.where)
     # the scan may only stop at the end of the header: any other exit that depends on the number of names found so far must leave
     # room for the time column plus ten legends
     file_loops = [n for n in ast.walk(gc.node) if isinstance(n, ast.For) and not (isinstance(n.iter, ast.Call) and isinstance(n.iter.func, ast.Name) and n.iter.func.id == "range")]
